@@ -264,8 +264,10 @@ impl<'a> Gen<'a> {
                 add(format!("{eff} "));
                 add(flip_case(&eff));
                 add(eff.to_uppercase());
-                if eff.len() > 1 {
-                    add(eff[..eff.len() - 1].to_string());
+                if eff.chars().count() > 1 {
+                    let mut t = eff.clone();
+                    t.pop();
+                    add(t);
                 }
             }
         }
@@ -421,9 +423,9 @@ impl<'a> Gen<'a> {
                 let fresh = self.valid(val, &mut cx, depth);
                 let extra: &[&str] = match key {
                     KeyTy::Str => &["", "kc"],
-                    KeyTy::U8 => &["x", "01", "256", "-1", "+2", "", " 1", "2 ", "\t3"],
-                    KeyTy::I32 => &["x", "-01", "1.5", "2147483648", " 7", "-7\u{a0}"],
-                    KeyTy::Bool => &["True", "1", "", " true", "false "],
+                    KeyTy::U8 => &["x", "01", "256", "-1", "+2", "", " 1", "2 ", "\t3", "007", "-0", "+0", "1e1", "0x1"],
+                    KeyTy::I32 => &["x", "-01", "1.5", "2147483648", " 7", "-7\u{a0}", "+7", "-0", "007", "--1", "-2147483648", "-2147483649"],
+                    KeyTy::Bool => &["True", "1", "", " true", "false ", "TRUE", "yes", "0"],
                     KeyTy::Char => &["xy", "", "é", " x", "y "],
                 };
                 for k in extra {
@@ -525,7 +527,9 @@ impl<'a> Gen<'a> {
                     // one inserted wide character: one edit, three bytes
                     add(format!("{n}日"));
                     if n.len() > 1 {
-                        add(n[..n.len() - 1].to_string());
+                        let mut t = n.clone();
+                        t.pop();
+                        add(t);
                     }
                 }
                 add(String::new());
